@@ -234,6 +234,16 @@ func (m *membership) universalIDByPartyID(id PartyID) UniversalID {
 	return m.pID2UID[id]
 }
 
+// sessionNodesByParty maps each party to the node that represents it among the given participants of a session.
+// Several nodes may represent the same party in the membership, but only one of them takes part in a session.
+func (m *membership) sessionNodesByParty(participants []UniversalID) map[PartyID]UniversalID {
+	res := make(map[PartyID]UniversalID, len(participants))
+	for _, uID := range participants {
+		res[m.partyIDByUniversalID(uID)] = uID
+	}
+	return res
+}
+
 func computeMembership(mapping map[UniversalID]PartyID) *membership {
 	protocol2universal := make(map[PartyID]UniversalID)
 	universal2Protocol := make(map[UniversalID]PartyID)
@@ -637,6 +647,8 @@ func (s *Scheme) initializeDKG(dkg KeyGenerator, threshold int, members []Univer
 		return err
 	}
 
+	sessionNodeOfParty := membership.sessionNodesByParty(members)
+
 	dkg.Init(partyIDsToUInts(parties), threshold, func(msg []byte, isBroadcast bool, to uint16) {
 		var payload []byte
 		payload = append(payload, 255)
@@ -645,7 +657,7 @@ func (s *Scheme) initializeDKG(dkg KeyGenerator, threshold int, members []Univer
 			s.Send(uint8(MsgTypeMPC), dkgTopicHash, payload, membersWithoutMe...)
 			return
 		}
-		s.Send(uint8(MsgTypeMPC), dkgTopicHash, payload, membership.universalIDByPartyID(PartyID(to)))
+		s.Send(uint8(MsgTypeMPC), dkgTopicHash, payload, sessionNodeOfParty[PartyID(to)])
 	})
 
 	return nil
@@ -659,6 +671,7 @@ func (s *Scheme) initializeThresholdSigning(membership *membership, parties []Pa
 	}
 
 	membersWithoutMe := excludeUniversal(signers, s.SelfID)
+	sessionNodeOfParty := membership.sessionNodesByParty(signers)
 
 	signer.Init(partyIDsToUInts(parties), s.Threshold, func(msg []byte, isBroadcast bool, to uint16) {
 		var payload []byte
@@ -668,7 +681,7 @@ func (s *Scheme) initializeThresholdSigning(membership *membership, parties []Pa
 			s.Send(uint8(MsgTypeMPC), topicHash, payload, membersWithoutMe...)
 			return
 		}
-		s.Send(uint8(MsgTypeMPC), topicHash, payload, membership.universalIDByPartyID(PartyID(to)))
+		s.Send(uint8(MsgTypeMPC), topicHash, payload, sessionNodeOfParty[PartyID(to)])
 	})
 
 	return signer, nil
